@@ -244,6 +244,12 @@ func Judge(e *rt.Entry, sc *prog.Scenario, x *rt.Exec) []Viol {
 			break
 		}
 	}
+	for _, sv := range x.SeenValues() {
+		if len(sc.Params) > 0 && sv[1] != sc.Params[0] {
+			j.add(uniq("C15"), "the function literal of function %d read the enclosing function's variable %s (named like an identifier of the generated code) and saw %x instead of its value %x: a generated identifier captured the name", sv[0], p.ShadowName(0), sv[1], sc.Params[0])
+			break
+		}
+	}
 	for _, n := range x.LateNotes() {
 		j.add(uniq("C15"), "%s", n)
 	}
